@@ -67,3 +67,20 @@ Theorem C13_kernels_generated : forall infl step prov trunc supply exclude ph,
   next_phase_provisions infl supply exclude ph.
 Proof. exact gen_NextPhaseProvisions. Qed.
 Print Assumptions C13_kernels_generated.
+
+From Sge Require Import Proofs.GenMint.
+(* which phase a block belongs to, how many blocks a phase has and what one block is paid in the model ARE Minter.CurrentPhase (the counted
+   loop with break over the cumulative truncated phase lengths), Params.getPhaseBlocks / GetPhaseAtStep and Minter.BlockProvisions, generated
+   from x/mint/types on every run.  Guards: the steps the code passes (-1, 0, 1..); BlockProvisions wherever the model does not panic. *)
+Theorem C13_phase_kernels_generated : forall P m,
+  (forall blk, K_Minter_CurrentPhase (gminter_of m) (gparams_of P) blk = (gph_of (fst (current_phase P blk)), snd (current_phase P blk))) /\
+  (forall step, -1 <= step -> K_Params_GetPhaseAtStep (gparams_of P) step = gph_of (phase_at_step P step)) /\
+  (forall step, 1 <= step <= Z.of_nat (length (phases P)) ->
+     K_Params_getPhaseBlocks (gparams_of P) step = phase_blocks_dec P (nth_default end_phase (phases P) (Z.to_nat (step - 1)))) /\
+  (forall step amt tr, block_provisions P m step = Some (amt, tr) -> K_Minter_BlockProvisions (gminter_of m) (gparams_of P) step = (amt, tr)) /\
+  (forall ph, K__IsEndPhase (gph_of ph) = is_end_phase ph).
+Proof.
+  intros P m. split; [intros; apply gen_CurrentPhase|]. split; [intros; apply gen_GetPhaseAtStep; assumption|].
+  split; [intros; apply gen_getPhaseBlocks; assumption|]. split; [intros; apply gen_BlockProvisions; assumption|intros; apply gen_IsEndPhase].
+Qed.
+Print Assumptions C13_phase_kernels_generated.
